@@ -189,6 +189,16 @@ func styTo(sb *strings.Builder, t schema.Type) {
 				tok(sb, "."+lib.Hex(kn))
 				styTo(sb, m)
 			}
+		case schema.UnionRepresentation_Stringprefix:
+			if stg.GetDelim() != "" {
+				tok(sb, "?union-delim")
+				return
+			}
+			tok(sb, fmt.Sprintf("TU%s:%d:p", lib.Hex(t.Name()), len(members)))
+			for _, m := range members {
+				tok(sb, "."+lib.Hex(stg.GetDiscriminant(m)))
+				styTo(sb, m)
+			}
 		default:
 			tok(sb, "?union")
 		}
